@@ -107,6 +107,25 @@ func checkDet(prop, tier string, seed int64) int {
 	if tier == "thorough" {
 		R, P, nRand, nScen = 16, 6, 300, 1500
 	}
+	// design level: the model of import collisions and their resolution (Dedup.tla) explored over EVERY order of the map ranges;
+	// the invariant InvConfluent says all of them end on the same document (thorough tier: the exploration takes minutes)
+	if tier == "thorough" || os.Getenv("VERIF_DEDUP") != "" {
+		consts := map[string]string{"TKinds": `{"aux1", "recdep"}`, "HKinds": `{"prop", "alias", "nested"}`, "H2Kinds": `{"none", "code"}`,
+			"CKinds": `{"exact", "twoimports"}`, "Export": "FALSE"}
+		mc, _, mcErr := runMC("MC_Dedup", consts, 90*time.Minute, nWorkers())
+		if mcErr != nil || mc == nil || !mc.OK {
+			t := ""
+			if mc != nil {
+				t = "invariant " + mc.InvViolated + "\n" + mc.Tail
+			}
+			rep.HarnessErr = append(rep.HarnessErr, fmt.Sprintf("MC_Dedup (collision model) failed: %v %s", mcErr, t))
+		} else {
+			rep.Extra["exhaustive_model_run"] = map[string]any{"module": "MC_Dedup", "distinct_states": mc.Distinct, "states_generated": mc.Generated,
+				"invariants": []string{"InvNoError", "InvBounded", "InvC01", "InvC02", "InvC03", "InvC05", "InvC06", "InvConfluent"}, "constants": mc.Constants}
+			rep.States += mc.Distinct
+			rep.Transitions += mc.Generated
+		}
+	}
 	cases := []*Case{}
 	for i := 0; i < nRand; i++ {
 		o := flattenGenOpts(i*3 + 0) // i*3: collisions on
